@@ -153,7 +153,7 @@ def runner(prop, fam, tier, seed, replay=None):
                 ev["coverage"]["states"] += shape_info["states"] + sum(d["states"] for d in design_stats)
                 ev["coverage"]["transitions"] += shape_info["transitions"] + sum(d["transitions"] for d in design_stats)
                 ev["wall_s"] = round(time.time() - t0, 2)
-                tmp = p + ".tmp"
+                tmp = p + ".tmp%d" % os.getpid()
                 json.dump(ev, open(tmp, "w"), indent=1, sort_keys=True)
                 os.replace(tmp, p)
             except Exception:
